@@ -49,6 +49,7 @@ class PythonConstructRenderer:
         description: str | None,
         context: RenderContext,
         discriminator: "IRDiscriminator | None" = None,  # type: ignore[name-defined]
+        mapping_types: dict[str, tuple[str, str]] | None = None,
     ) -> str:
         """
         Render a type alias assignment as Python code.
@@ -59,6 +60,7 @@ class PythonConstructRenderer:
             description: Optional description for the docstring
             context: The rendering context for import registration
             discriminator: Optional discriminator metadata for Union types
+            mapping_types: Optional map from a mapped schema name to its emitted (class name, module stem)
 
         Returns:
             Formatted Python code for the type alias
@@ -112,14 +114,17 @@ class PythonConstructRenderer:
                 writer.write_line("")
                 writer.write_line("    def get_mapping(self) -> dict[str, type]:")
                 writer.write_line('        """Get discriminator mapping with actual type references."""')
-                # Import types locally
+                # Import types locally, under their emitted (sanitised, de-collided) names rather than the spec names
+                emitted = mapping_types or {}
                 for disc_value, schema_ref in discriminator.mapping.items():
                     schema_name = schema_ref.split("/")[-1]
                     module_name = self._to_module_name(schema_name)
+                    schema_name, module_name = emitted.get(schema_name, (schema_name, module_name))
                     writer.write_line(f"        from .{module_name} import {schema_name}")
                 writer.write_line("        return {")
                 for disc_value, schema_ref in discriminator.mapping.items():
                     schema_name = schema_ref.split("/")[-1]
+                    schema_name = emitted.get(schema_name, (schema_name, ""))[0]
                     writer.write_line(f'            "{disc_value}": {schema_name},')
                 writer.write_line("        }")
             else:
